@@ -399,15 +399,35 @@ class Check:
         return 0
 
 
+FATAL_SIGNALS = {4: "SIGILL", 6: "SIGABRT", 7: "SIGBUS", 8: "SIGFPE", 11: "SIGSEGV"}
+
+
+class Crash(Exception):
+    """The code under test terminated the recording process with a fatal signal, reproducibly.  A recorder only calls
+    the public API on inputs inside the property's domain, and every trace specification requires each recorded call to
+    return, so this is reported as a violation (exit 1), not as an infrastructure failure."""
+
+    def __init__(self, cmd, sig, stderr, path):
+        Exception.__init__(self, "%s in: %s" % (FATAL_SIGNALS.get(sig, sig), " ".join(cmd)))
+        self.cmd, self.sig, self.stderr, self.path = cmd, sig, stderr, path
+
+
 def run_to_file(cmd, path, timeout=3600, env=None, cwd=None):
     e = dict(os.environ)
     if env:
         e.update(env)
-    with open(path, "w") as f:
-        p = subprocess.run(cmd, stdout=f, stderr=subprocess.PIPE, timeout=timeout, env=e, cwd=cwd)
-    if p.returncode != 0:
-        raise Infra("recorder failed (%d): %s\n%s" % (p.returncode, " ".join(cmd), p.stderr.decode("utf8", "replace")[-3000:]))
-    return path
+    p = None
+    for attempt in (1, 2):
+        with open(path, "w") as f:
+            p = subprocess.run(cmd, stdout=f, stderr=subprocess.PIPE, timeout=timeout, env=e, cwd=cwd)
+        if p.returncode == 0:
+            return path
+        if -p.returncode not in FATAL_SIGNALS:
+            break                                   # not a fatal signal: infrastructure
+        # a fatal signal is believed only if a second run repeats it
+    if -p.returncode in FATAL_SIGNALS:
+        raise Crash(cmd, -p.returncode, p.stderr.decode("utf8", "replace")[-3000:], path)
+    raise Infra("recorder failed (%d): %s\n%s" % (p.returncode, " ".join(cmd), p.stderr.decode("utf8", "replace")[-3000:]))
 
 
 def parallel(fn, items, jobs=NCPU):
